@@ -638,4 +638,14 @@ def targets(tier='quick'):
         T.append(Target('pt/step[add_correlation_time=%s]' % ('None' if tn_ else 'tau'), 'backends.pt_tempo_backend.PtTempoBackend.compute_step',
                         scen_pt_step(tn_), post_pt_step, RP, PROP, replay=rp))
     T.append(lemma_same_cells())
+    # the cells themselves: what a correlations object returns for (shape, time_1, time_2) is the contract of C12; it is
+    # discharged here as well (TEMPO asks for triangles at time_1 = 0 only -- infl/cell-args[zero] -- so C12's open finding
+    # about triangles at time_1 != 0 does not concern this property)
+    from . import c12
+    for t in c12.targets(tier):
+        if not (t.name.startswith(('cell/', 'cc/', 'quad/', 'kernels/')) or 'tile' in t.name):
+            continue
+        t.prop = PROP
+        t.keep = lambda name: name != 'cell/triangle[time_1 != 0]'
+        T.append(t)
     return T
